@@ -1,5 +1,6 @@
 import MitmVerif.Model.C42_Print
 import MitmVerif.Model.C42_Body
+import MitmVerif.Model.C42_Leaf
 import Driver.Proto
 open MitmVerif Driver
 
@@ -161,6 +162,54 @@ partial def pTL : Nat → List String → Option (List Ast × List String)
     | none => none
 end
 
+/-! a flow view on the wire (op `lv`, 20 fields):
+  kind req resp method host prettyHost prettyUrl status ws msgs dnsReq dnsResp dnsQName src dst meta marked comment error replay
+  req/resp := none | hdr/cts/raw/ce/dec   (cts: `.` or comma list; raw: none|hex; ce: none|hex; dec: fail|hex)
+  ws := none | `.` | c:hex,s:hex,…     msgs := `.` | c:hex,…     optional fields := none | hex -/
+
+def optHex (s : String) : Option (Option Bytes) :=
+  if s == "none" then some none else (hexOr s).map some
+
+def pList (s : String) : Option (List Bytes) :=
+  if s == "." then some [] else (s.splitOn ",").mapM hexOr
+
+def pDirs (s : String) : Option (List DirMsg) :=
+  if s == "." then some []
+  else (s.splitOn ",").mapM (fun e =>
+    match e.splitOn ":" with
+    | [d, h] => (hexOr h).map (fun b => { fromClient := d == "c", content := b })
+    | _ => none)
+
+/-- (message, outcome of the content decoder on it) -/
+def pHMsg (s : String) : Option (Option (HMsg × Option Bytes)) :=
+  if s == "none" then some none
+  else match s.splitOn "/" with
+    | [hdr, cts, raw, ce, dec] =>
+      match hexOr hdr, pList cts, optHex raw, (if ce == "none" then some none else (strOfHex ce).map some), (if dec == "fail" then some none else (hexOr dec).map some) with
+      | some h, some c, some r, some e, some d => some (some ({ hdrBlock := h, ctValues := c, body := { raw := r, ce := e } }, d))
+      | _, _, _, _, _ => none
+    | _ => none
+
+def pKindF : String → Option FKind
+  | "http" => some .http | "tcp" => some .tcp | "udp" => some .udp | "dns" => some .dns | "other" => some .other | _ => none
+
+def pReplay : String → Option Replay
+  | "none" => some .none | "request" => some .request | "response" => some .response | "other" => some .other | _ => none
+
+def showList (l : List Bytes) : String := if l.isEmpty then "." else ",".intercalate (l.map showBytes)
+def b01 (b : Bool) : String := if b then "1" else "0"
+
+def leafLine (f : FlowView) (dec : Str → Bytes → Option Bytes) : String :=
+  let rex := Gen.rexCodes.map (fun c =>
+    let sp := specOf c []
+    String.ofList c ++ "=" ++ b01 sp.bin ++ b01 sp.ignorecase ++ b01 sp.multiline ++ b01 sp.dotall ++ ":" ++ showList (leafReads dec c f))
+  -- ~a: the patterns and the subjects they are tried on; the verdict is formed by the harness with the real engine
+  let asset := "@a=" ++ showList (Gen.assetPatterns.map (fun p => (String.ofList p).toUTF8.toList)) ++ ":" ++
+    showList (if isHttp f then ctOf f.resp else [])
+  let un := (Gen.unaryCodes.filter (· != ['a'])).map (fun c => String.ofList c ++ "=" ++ b01 (unaryV (fun _ _ => false) c f))
+  let ints := Gen.intCodes.map (fun c => String.ofList c ++ "=" ++ (if intV c f.status f then toString f.status else "none"))
+  ";".intercalate (rex ++ [asset]) ++ "|" ++ ",".intercalate un ++ "|" ++ ",".intercalate ints
+
 def step (line : String) : String :=
   match fields line with
   | "px" :: h :: bits =>
@@ -194,6 +243,26 @@ def step (line : String) : String :=
       | some b => showBytes b
       | none => "none"
     | _, _, _ => "bad-op"
+  | ["lv", kind, req, resp, method, host, phost, purl, status, ws, msgs, dq, ds, qn, src, dst, metaT, marked, comment, err, rep] =>
+    match pKindF kind, pHMsg req, pHMsg resp, hexOr method, hexOr host, hexOr phost, hexOr purl, status.toNat? with
+    | some k, some rq, some rs, some m, some h, some ph, some pu, some st =>
+      match (if ws == "none" then some none else (pDirs ws).map some), pDirs msgs, optHex dq, optHex ds, optHex qn, optHex src, optHex dst with
+      | some w, some ms, some dq, some ds, some qn, some sr, some dt =>
+        match hexOr metaT, hexOr marked, hexOr comment, pReplay rep with
+        | some me, some mk, some co, some rp =>
+          let f : FlowView := { kind := k, req := rq.map (·.1), resp := rs.map (·.1), method := m, host := h, prettyHost := ph,
+                                prettyUrl := pu, status := st, ws := w, msgs := ms, dnsReq := dq, dnsResp := ds, dnsQName := qn,
+                                src := sr, dst := dt, metaText := me, marked := mk, comment := co, error := err == "1", replay := rp }
+          let tbl : List (Option Str × Option Bytes × Option Bytes) :=
+            (rq.toList ++ rs.toList).map (fun p => (p.1.body.ce, p.1.body.raw, p.2))
+          let dec : Str → Bytes → Option Bytes := fun c raw =>
+            match tbl.find? (fun e => e.1 == some c && e.2.1 == some raw) with
+            | some e => e.2.2
+            | none => none
+          leafLine f dec
+        | _, _, _, _ => "bad-op"
+      | _, _, _, _, _, _, _ => "bad-op"
+    | _, _, _, _, _, _, _, _ => "bad-op"
   | "pr" :: ts =>
     match pT ts with
     | some (t, []) => hexOfStr (print t)
